@@ -416,7 +416,7 @@ func TestC20(t *testing.T) {
 		verdict(rt, "C20", "c20", c, checkC20)
 	})
 	// cold start: each case in a fresh process whose first calls into the package are the concurrent ones
-	rapidCheck(t, "C20/cold-start", tier(6, 200), func(rt *rapid.T) {
+	rapidCheck(t, "C20/cold-start", tier(12, 300), func(rt *rapid.T) {
 		c := c20Case{Goroutines: rapid.IntRange(4, 16).Draw(rt, "goroutines"), Rounds: 1, Cold: true, History: rapid.Bool().Draw(rt, "history")}
 		var pool []c20Op
 		for i := rapid.IntRange(2, 4).Draw(rt, "distinct"); i > 0; i-- {
@@ -424,7 +424,14 @@ func TestC20(t *testing.T) {
 		}
 		// the writers with lazily built tables are always part of it
 		g := genGL(rt, false)
-		pool = append(pool, c20Op{Kind: "write", Format: "stl", Spec: &g}, c20Op{Kind: "write", Format: "ttml", Spec: &g})
+		// every writer and every reader takes part (whatever any of them builds on first use is then built under contention)
+		g2 := genGLRaw(rt)
+		for _, f := range writerFormats {
+			pool = append(pool, c20Op{Kind: "write", Format: f, Spec: &g}, c20Op{Kind: "write", Format: f, Spec: &g2})
+		}
+		for _, f := range allFormats {
+			pool = append(pool, c20Op{Kind: "read", Format: f, Doc: docGen(f).Draw(rt, "colddoc")})
+		}
 		// a document the SSA reader has remarks about (unknown sections, lines it does not understand), and extensions
 		// the file-level helpers refuse
 		nd, ncols := genSSADoc(rt, false)
@@ -440,8 +447,13 @@ func TestC20(t *testing.T) {
 		td := genTTMLDoc(rt, false)
 		td.Lang = code
 		pool = append(pool, c20Op{Kind: "read", Format: "ttml", Doc: renderTTML(td, ttmlRendering{StylePfx: "tts", XMLID: true, EOL: "\n"})}, c20Op{Kind: "write", Format: "ttml", Spec: &gl})
-		for i := rapid.IntRange(8, 32).Draw(rt, "nops"); i > 0; i-- {
+		// each operation of the pool twice (two goroutines meet in the same code for the first time), then random picks
+		c.Ops = append(append(c.Ops, pool...), pool...)
+		for i := rapid.IntRange(0, 16).Draw(rt, "nops"); i > 0; i-- {
 			c.Ops = append(c.Ops, pool[rapid.IntRange(0, len(pool)-1).Draw(rt, "pick")])
+		}
+		for i, j := range genPerm(rt, len(c.Ops), "opsorder") {
+			c.Ops[i], c.Ops[j] = c.Ops[j], c.Ops[i]
 		}
 		c.Release = genPerm(rt, c.Goroutines, "release")
 		ev.Case(true, fmt.Sprintf("%v", c), "cold-start", map[bool]string{true: "cold-start-history", false: "cold-start-concurrent"}[c.History])
